@@ -130,13 +130,10 @@ func ldnsSafe(data []byte) string {
 	} else {
 		ch := make(chan error, 1)
 		go func() { _, err := c.out.ReadString('\n'); ch <- err }()
-		select {
-		case err := <-ch:
-			if err != nil {
-				v = "panic" // the child died while decoding this input
-			}
-		case <-time.After(10 * time.Second):
+		if err, ok := recvBusyAware(ch, 10*time.Second); !ok {
 			v = "stuck"
+		} else if err != nil {
+			v = "panic" // the child died while decoding this input
 		}
 	}
 	if v != "" {
